@@ -19,12 +19,51 @@ from . import C03 as _C03
 
 # Props/C03Problems.lean: the closed-form potentials of problems.py (regenerated from the source) ARE the heat-kernel
 # potentials of the generated u0 over the domain rectangles, solve the heat equation and take the initial value u0
-PROP_MODS = ['Stbem.Props.C08', 'Stbem.Props.C03Problems']
+# Props/InitPotTie.lean: the functions REGENERATED from src/initial_potential.py (Gen/InitPotGen.lean) equal the hand model
+PROP_MODS = ['Stbem.Props.C08', 'Stbem.Props.C03Problems', 'Stbem.Props.InitPotTie']
+
+
+def translate_initpot(res):
+    """Regenerates lean/Stbem/Gen/InitPotGen.lean (InitialOperator.__init__, linform, linform_vector, MP_M0_val, evaluate,
+    evaluate_mesh) from the working tree of the repository under test; a construct the translator does not understand raises
+    (= broken obligation).  A changed file must compile on its own before it replaces the one the driver links."""
+    import os
+    import subprocess
+    from ..common import LEAN, REPO, VERIF, lake_lock, write_if_changed
+    sys.path.insert(0, os.path.join(VERIF, 'translate'))
+    import initpotgen
+
+    def compiles(text):
+        tmp = os.path.join(LEAN, '.lake', 'initpotgen_check_%d.lean' % os.getpid())
+        with open(tmp, 'w') as fh:
+            fh.write(text)
+        try:
+            with lake_lock():
+                subprocess.run(['lake', 'build', 'Stbem.Model.InitialPotential'], cwd=LEAN, stdout=subprocess.PIPE, stderr=subprocess.STDOUT,
+                               timeout=1200)
+                p = subprocess.run(['lake', 'env', 'lean', tmp], cwd=LEAN, stdout=subprocess.PIPE, stderr=subprocess.STDOUT, text=True,
+                                   timeout=600)
+        finally:
+            os.unlink(tmp)
+        return None if p.returncode == 0 else p.stdout[-2000:]
+    stats = initpotgen.generate(REPO, os.path.join(LEAN, 'Stbem', 'Gen'), write_if_changed, compiles)
+    res.bump('generated_file_changed', stats.get('changed', 0))
+    for k in ('assignments', 'branches', 'returns', 'asserts', 'none_checks', 'loops', 'continues', 'appends', 'closures', 'comprehensions',
+              'unpackings', 'external_calls', 'array_ops', 'scalar_ops', 'rule_applications', 'schemes', 'float_constants',
+              'discarded_isclose', 'continuation_copies', 'linform_calls', 'element_methods', 'factories'):
+        res.bump('translated_' + k, stats.get(k, 0))
+    res.count(('translated', 'initial_potential.py'), True, n=stats.get('assignments', 0) + stats.get('returns', 0))
+    return stats
 
 
 def translate(res):
-    translate_formulas(res)
-    _C03.translate_problems(res)
+    # every translator is run (a failure of one must not leave the files of the others stale); each failure is a broken obligation
+    for name, fn in (('translate/formulas.py', translate_formulas), ('translate/problemdefs.py', _C03.translate_problems),
+                     ('translate/initpotgen.py', translate_initpot)):
+        try:
+            fn(res)
+        except Exception as exc:  # noqa: BLE001
+            res.broken_obligation('translator %s' % name, '%s\n%s' % (exc, traceback.format_exc()[-3000:]))
 
 
 RULE = ('tie (exact): the REAL InitialOperator (real constructor, real <domain>BoundaryRefined factories of src/initial_mesh.py) runs '
@@ -35,7 +74,14 @@ RULE = ('tie (exact): the REAL InitialOperator (real constructor, real <domain>B
         'dyadic stand-in 25/8 for pi, segment levels 0..3 / 0..4, both orientations, both time branches (a == 0 / a != 0), '
         'polynomial and rational u0, assertion cases (non-dyadic piece, diagonal, edge shared by two root cells); linform_vector = map; '
         'instance of the Lean theorem linform_eq_integral_poly on the real code: exact Newton-Cotes rule + polynomial kernel => '
-        'load = exact integral (Fractions). Kept from before: polynomial stand-in for exp1 in floats vs closed-form integral (1e-10), '
+        'load = exact integral (Fractions). Regenerated from the source on every run (translate/initpotgen.py -> Gen/InitPotGen.lean): '
+        'InitialOperator.__init__ / linform / linform_vector / MP_M0_val / evaluate / evaluate_mesh, Element.diam / gamma / '
+        'connected_to_vertex and the domain meshes + <Domain>BoundaryRefined factories of src/initial_mesh.py; Props/InitPotTie.lean proves '
+        'the generated linform EQUAL to the hand model for all inputs; every `ip lin` / `ip vec` request is answered a second time by the '
+        'generated functions through the generated factories (`ip genlin`, `ip genvec`, `ip genpool`; every linform request in the quick '
+        'tier, every third in the thorough tier) and must give the same text; '
+        'evaluate / evaluate_mesh: the REAL methods on Q numbers (np.exp, np.pi, Gauss rule as rational stand-ins, REAL ProductScheme2D, '
+        'REAL InitialMesh refined at random) vs the generated functions (`ip geneval`, `ip genevalmesh`). Kept from before: polynomial stand-in for exp1 in floats vs closed-form integral (1e-10), '
         'generated ip_tik validated against the Python function; the functions of problems.py (closed forms M0u0, u0, ...) '
         'regenerated into Lean and validated by exact execution (as in C03). search: u0 = 1 and the sine product against the '
         'closed-form potentials of problems.py integrated over the element (1e-5), linearity in u0, additivity under '
@@ -45,8 +91,13 @@ TRUSTED = [
     'Lean 4.33 kernel; axioms propext, Classical.choice, Quot.sound only',
     'translate/problemdefs.py (ast of problems.py; validated on every run by exact execution of the real functions); the two '
     'complex-erf closed forms of the Smooth problems are translated and tied but have no potential theorem (search only)',
+    'translate/initpotgen.py (ast of src/initial_potential.py and of the Element members / domain factories of src/initial_mesh.py -> '
+    'Gen/InitPotGen.lean; its object model -- Vertex = coordinates, element-wise NumPy = map/zipWith, closures applied column-wise, '
+    'for loop = left fold -- is documented in the generated header; validated on every run by exact execution of the real methods); '
+    'Props/InitPotTie.lean: generated = hand model for all inputs',
     'hand-written model lean/Stbem/Model/InitialPotential.lean (on top of the quadtree model of C16 and the rule model of C15), tied '
-    'to src/initial_potential.py by the exact correspondence (harness/checks/C08.py, Driver/InitPotCmd.lean); modelled rather than '
+    'to src/initial_potential.py by the exact correspondence (harness/checks/C08.py, Driver/InitPotCmd.lean) and by Props/InitPotTie.lean '
+    'to the regenerated functions; modelled rather than '
     'verified: Vertex identity = coordinates, set iteration order of leaf_elements (contributions are compared sorted by element '
     'index), math.isclose = equality; binary64 rounding is outside the model; the float pi-square (rounded midpoints) is covered '
     'by the float runs only',
@@ -261,8 +312,9 @@ class ExactIP:
     """The REAL InitialOperator (built by its real constructor) with: the rule constructor log_quadrature_scheme
     replaced by a rational rule of Q numbers, exp1 / FPI_INV / np.pi replaced by rational stand-ins, math.fsum by an exact
     sum; the REAL <domain>BoundaryRefined factory of src.initial_mesh (wrapped only to see the mesh it created)."""
-    def __init__(self, domain, rule, kernel, pi, fpi_inv, u0):
+    def __init__(self, domain, rule, kernel, pi, fpi_inv, u0, gauss=None, expk=None):
         self.domain, self.rule, self.kernel, self.pi, self.fpi, self.u0 = domain, rule, kernel, F(pi), F(fpi_inv), u0
+        self.gauss, self.expk = gauss, expk   # evaluation rule / stand-in for np.exp (evaluate, evaluate_mesh only)
         self.spec = XDOMAINS[domain]
         self.last_mesh = None
 
@@ -279,9 +331,16 @@ class ExactIP:
         qa = lambda xs: np.array([Q(x) for x in xs] + [None], dtype=object)[:-1]
         log_rule = QuadScheme1D(qa(px), qa(wx))
         saved = [(IP, n, getattr(IP, n)) for n in ('exp1', 'FPI_INV', 'np', 'math', 'log_quadrature_scheme')] + [(IM, 'np', IM.np)]
+        saved.append((IP, 'gauss_quadrature_scheme', IP.gauss_quadrature_scheme))
         IP.exp1 = _elementwise(self.kernel)
         IP.FPI_INV = Q(self.fpi)
-        IP.np = _Proxy(saved[2][2], pi=Q(self.pi))
+        over = dict(pi=Q(self.pi))
+        if self.expk is not None:
+            over['exp'] = _elementwise(self.expk)
+        IP.np = _Proxy(saved[2][2], **over)
+        if self.gauss is not None:
+            gauss_rule = QuadScheme1D(qa(self.gauss[0]), qa(self.gauss[1]))
+            IP.gauss_quadrature_scheme = lambda *a, **k: gauss_rule
         IP.math = _Proxy(real_math, fsum=_fsum_exact)
         IP.log_quadrature_scheme = lambda *a, **k: log_rule
         IM.np = _Proxy(saved[5][2], pi=PI_STANDIN)
@@ -396,6 +455,7 @@ def correspond_exact(res, tier):
         meta.append(m)
 
     n_ctx = 0
+    n_twin = [0]
     for domain in ('unit', 'lshape', 'pi'):
         spec = XDOMAINS[domain]
         n_pieces = len(spec['pieces'])
@@ -432,13 +492,19 @@ def correspond_exact(res, tier):
                         m = dict(domain=domain, piece=pi_, l=l, k=k, time=(a, b), reversed=rev, u0=ukind, kernel=kernel.kind,
                                  rule_nodes=len(rule[0]), ctx=xo.context_line())
                         add('ip lin %s %d %s' % (spec['dom'], l + 1, seg.encode()), want, m)
+                        # twin: the linform REGENERATED from the source (Gen/InitPotGen.lean); every request in the quick tier, every
+                        # third one in the thorough tier (the driver time doubles otherwise; generated = hand model is a theorem)
+                        n_twin[0] += 1
+                        if not thorough or n_twin[0] % 3 == 0:
+                            add('ip genlin %s %d %s' % (spec['dom'], l + 1, seg.encode()), want, dict(m, generated=True))
                     # linform_vector = map of linform (serial branch, no cache directory)
                     segs = [segment_of(domain, rng.randrange(n_pieces), 1, rng.randrange(2), *rng.choice(TIME_CASES)) for _ in range(2)]
                     with contextlib.redirect_stdout(io.StringIO()):
                         vec = xo.M0.linform_vector(elems=segs)
                     # the real routine stores into np.zeros (binary64): compare the doubles of the exact values
-                    add('ip vec %s 3 %s' % (spec['dom'], ' '.join(s.encode().replace(' ', ',') for s in segs)), None,
-                        dict(vector=[float(v) for v in vec], domain=domain))
+                    for req in ('vec', 'genvec', 'genpool'):   # hand model, generated serial loop, generated pool branch
+                        add('ip %s %s 3 %s' % (req, spec['dom'], ' '.join(s.encode().replace(' ', ',') for s in segs)), None,
+                            dict(vector=[float(v) for v in vec], domain=domain, generated=req != 'vec'))
                     # assertion cases: not a dyadic piece ([1/4, 3/4] of a side), not axis-parallel, an edge shared by two root cells (L-shape)
                     bad = [XSeg(0, 1, 0, 1, 0, (F(spec['side']) / 4, 0), (spec['side'] / 2, 0)),
                            XSeg(0, 1, 0, 1, 0, (0, 0), (spec['side'], spec['side']))]
@@ -446,7 +512,9 @@ def correspond_exact(res, tier):
                         bad.append(XSeg(0, 1, 0, 1, 0, (0, 0), (1, 0)))
                     for seg in bad:
                         want, _ = xo.linform_str(seg)
-                        add('ip lin %s 6 %s' % (spec['dom'], seg.encode()), want, dict(domain=domain, illegal=seg.encode(), ctx=xo.context_line()))
+                        for req in ('lin', 'genlin'):
+                            add('ip %s %s 6 %s' % (req, spec['dom'], seg.encode()), want,
+                                dict(domain=domain, illegal=seg.encode(), ctx=xo.context_line(), generated=req != 'lin'))
     out = run_driver(lines)
     if len(out) != len(lines):
         res.broken_obligation('correspondence C08: driver returned %d lines for %d' % (len(out), len(lines)), '')
@@ -458,11 +526,13 @@ def correspond_exact(res, tier):
                 res.broken_obligation('correspondence C08: context line rejected', '%s -> %s' % (line[:300], got))
                 return
             continue
+        which = ('the definition regenerated from the source (Gen/InitPotGen.lean)' if m.get('generated') else 'the hand-written model')
+        res.bump('requests_generated_twin' if m.get('generated') else 'requests_hand_model')
         if 'vector' in m:
             ok = got.startswith('ok ') and [float(F(v)) for v in got[3:].split(',')] == m['vector']
             res.count(('ipvec', line), True)
             if not ok:
-                res.broken_obligation('correspondence C08: linform_vector of model and src/initial_potential.py differ',
+                res.broken_obligation('correspondence C08: linform_vector of %s and src/initial_potential.py differ' % which,
                                       'line: %s\npython: %r\nmodel: %s' % (line, m['vector'], got[:400]))
                 return
             continue
@@ -477,7 +547,7 @@ def correspond_exact(res, tier):
             res.bump('segments_level_%d' % m['l'])
             res.count(('ip', line, m['ctx']), len(classes) >= 2)
         if want != got:
-            res.broken_obligation('correspondence C08: linform of model and src/initial_potential.py differ',
+            res.broken_obligation('correspondence C08: linform of %s and src/initial_potential.py differ' % which,
                                   'case %r\nline: %s\npython: %s\nmodel:  %s' % ({k: v for k, v in m.items() if k != 'ctx'}, line, want[:600], got[:600]) +
                                   '\ncontext: ' + m.get('ctx', '')[:1200])
             res.notes['disagreement'] = dict(line=line, context=m.get('ctx'))
@@ -516,6 +586,65 @@ def correspond_exact(res, tier):
     res.notes['exact_integral_instances'] = n_b
 
 
+def correspond_eval(res, tier):
+    """evaluate / evaluate_mesh: the REAL methods on Q numbers (np.exp, np.pi, the Gauss rule replaced by rational stand-ins;
+    space_integrator = the REAL ProductScheme2D.integrate over a box, as the curve classes build it; evaluate_mesh on REAL
+    InitialMesh objects refined at random) against the functions regenerated from the source (`ip geneval`, `ip genevalmesh`)."""
+    import src.initial_mesh as IM
+    from src.quadrature import ProductScheme2D, QuadScheme1D
+    rng = seed_rng(res.seed, 'C08ev')
+    thorough = tier != 'quick'
+    lines, expect, meta = [], [], []
+    qa = lambda xs: np.array([Q(x) for x in xs] + [None], dtype=object)[:-1]
+    for domain in ('unit', 'lshape', 'pi'):
+        spec = XDOMAINS[domain]
+        for rep in range(3 if thorough else 1):
+            gauss = rand_rule(rng, n=rng.choice([1, 2, 3]))
+            expk = rand_kernel(rng, rng.choice(['q', 'p']))
+            xo = ExactIP(domain, rand_rule(rng, n=1), rand_kernel(rng, 'q'), F(rng.randint(1, 40), rng.randint(1, 40)),
+                         F(rng.randint(1, 9)), rand_u0(rng, rng.choice(['bilinear', 'rational', 'quadratic'])), gauss=gauss, expk=expk)
+            lines.append(xo.context_line()); expect.append('ok'); meta.append(None)
+            genc = '%s %s' % (enc_rule1(*gauss), expk.encode())
+            with xo.installed():
+                scheme = ProductScheme2D(QuadScheme1D(qa(gauss[0]), qa(gauss[1])))
+                for _ in range(4 if thorough else 2):
+                    a, c = F(rng.randint(-4, 4), rng.choice([1, 2, 3])), F(rng.randint(-4, 4), rng.choice([1, 2, 5]))
+                    b, d = a + F(rng.randint(1, 6), rng.choice([1, 2, 3])), c + F(rng.randint(1, 6), rng.choice([1, 4]))
+                    t = F(rng.randint(1, 12), rng.choice([1, 4, 7]))
+                    x = (F(rng.randint(-3, 3), rng.choice([1, 2])), F(rng.randint(-3, 3), rng.choice([1, 3])))
+                    xo.M0.space_integrator = lambda f, a=a, b=b, c=c, d=d: scheme.integrate(f, Q(a), Q(b), Q(c), Q(d))
+                    val = xo.M0.evaluate(Q(t), [[Q(x[0])], [Q(x[1])]])
+                    lines.append('ip geneval %s %s' % (genc, ' '.join(q2s(v) for v in (t, x[0], x[1], a, b, c, d))))
+                    expect.append('ok ' + q2s(val)); meta.append(dict(what='evaluate', domain=domain))
+                for _ in range(3 if thorough else 2):
+                    with contextlib.redirect_stdout(io.StringIO()):
+                        mesh = getattr(IM, {'unit': 'UnitSquare', 'lshape': 'LShape', 'pi': 'PiSquare'}[domain])()
+                    ids = []
+                    for _ in range(rng.randint(0, 3 if not thorough else 5)):
+                        el = rng.choice(sorted(mesh.leaf_elements, key=lambda e: mesh.elements.index(e)))
+                        ids.append(mesh.elements.index(el))
+                        mesh.refine(el)
+                    t = F(rng.randint(1, 12), rng.choice([1, 4, 7]))
+                    x = (F(rng.randint(-3, 3), rng.choice([1, 2])), F(rng.randint(-3, 3), rng.choice([1, 3])))
+                    val = xo.M0.evaluate_mesh(Q(t), np.array([[Q(x[0])], [Q(x[1])]], dtype=object), mesh)
+                    lines.append('ip genevalmesh %s %s %s %s' % (genc, spec['dom'], ' '.join(q2s(v) for v in (t, x[0], x[1])),
+                                                               ','.join(str(i) for i in ids) or '-'))
+                    expect.append('ok ' + q2s(val)); meta.append(dict(what='evaluate_mesh', domain=domain, refined=len(ids), leaves=len(mesh.leaf_elements)))
+    out = run_driver(lines)
+    if len(out) != len(lines):
+        res.broken_obligation('correspondence C08 (evaluate): driver returned %d lines for %d' % (len(out), len(lines)), '')
+        return
+    for line, want, got, m in zip(lines, expect, out, meta):
+        if m is not None:
+            res.count(('ipeval', line), True)
+            res.bump('generated_' + m['what'])
+        if want != got:
+            res.broken_obligation('correspondence C08: %s of the definition regenerated from the source (Gen/InitPotGen.lean) and '
+                                  'src/initial_potential.py differ' % (m['what'] if m else 'context line'),
+                                  'line: %s\npython: %s\nmodel:  %s' % (line[:600], want[:300], got[:300]))
+            return
+
+
 def correspond(res, tier):
     import src.initial_potential as IP
     from ..formulas_tie import validate
@@ -528,6 +657,10 @@ def correspond(res, tier):
         correspond_exact(res, tier)
     except Exception as exc:  # noqa: BLE001 - the real code cannot be run exactly any more: the tie is broken
         res.broken_obligation('correspondence C08: exact execution of the real linform failed', '%r\n%s' % (exc, traceback.format_exc()[-3000:]))
+    try:
+        correspond_eval(res, tier)
+    except Exception as exc:  # noqa: BLE001
+        res.broken_obligation('correspondence C08: exact execution of the real evaluate / evaluate_mesh failed', '%r\n%s' % (exc, traceback.format_exc()[-3000:]))
     lmax = 3 if tier == 'quick' else 5
     saved = IP.exp1
     try:
